@@ -140,6 +140,8 @@ def _worker(task):
     mod = _load_units(modname)
     unit = mod.units(prop)[uidx]
     E = SymEngine(timeout_ms=unit.timeout_ms or timeout_ms)
+    E.crosscheck_every = XC_EVERY.get("thorough" if timeout_ms > 10000 else "quick", 0)
+    E._xc_counter = (seed * 7919 + cidx * 31 + len(forced)) % max(E.crosscheck_every, 1)
     set_active(E)
     st = {"unit": unit.name, "cidx": cidx, "paths": 0, "inconclusive": 0, "inconclusive_reasons": {}, "nontrivial": 0,
           "discharged": 0, "q_unknown": 0, "violations": [], "nonrepro": 0, "witness_ok": 0, "witness_bad": [],
@@ -255,6 +257,8 @@ def _worker(task):
     st["solver_s"] = E.solver_time
     st["unknowns"] = E.unknowns
     st["realisations"] = E.realisations
+    st["xc"] = {k: v for k, v in E.xc.items() if k != "disagreements"}
+    st["xc_disagreements"] = E.xc.get("disagreements", [])[:1]
     st["nonlinear"] = E.nonlinear
     st["wall"] = time.time() - t0
     st["distinct"] = list(st["distinct"])
@@ -349,6 +353,12 @@ def run_property(modname, prop, tier, seed, nproc=None, budget_s=None):
     distinct = set()
     exhausted = skipped[0] == 0
     nonlinear = False
+    xc = {}
+    xc_dis = []
+    for st in results:
+        for k, v in st.get("xc", {}).items():
+            xc[k] = xc.get(k, 0) + v
+        xc_dis.extend(st.get("xc_disagreements", []))
     for st in results:
         pu = per_unit.setdefault(st["unit"], {"paths": 0, "queries": 0, "nontrivial": 0, "solver_s": 0.0, "configs": set(),
                                               "exhausted": True, "inconclusive": 0})
@@ -379,10 +389,11 @@ def run_property(modname, prop, tier, seed, nproc=None, budget_s=None):
         pu["solver_s"] = round(pu["solver_s"], 2)
     return {"units": units, "tot": tot, "per_unit": per_unit, "violations": violations, "witness_bad": witness_bad,
             "samples": samples, "reasons": reasons, "tags": tags, "distinct": len(distinct), "exhausted": exhausted,
-            "crashes": crashes, "wall": time.time() - t0, "nonlinear": nonlinear, "ntasks": len(results)}
+            "crashes": crashes, "wall": time.time() - t0, "nonlinear": nonlinear, "ntasks": len(results), "xc": xc, "xc_dis": xc_dis}
 
 
 LEVELS = {"C09": "other", "C10": "other"}
+XC_EVERY = {"quick": 400, "thorough": 100}     # every n-th validity query is re-decided by cvc5
 PATH_TIMEOUT_S = 60
 SLICE_S = 3.0      # a task that runs longer hands the rest of its subtree back to the pool
 
@@ -436,6 +447,8 @@ def finish(prop, tier, seed, R, level_note=""):
     if R["witness_bad"]:
         harness_error.append(f"{len(R['witness_bad'])} witness replay disagreement(s) between symbolic and concrete run: "
                              + json.dumps(R["witness_bad"][0])[:600])
+    if R.get("xc", {}).get("disagree"):
+        harness_error.append(f"z3 and cvc5 disagree on {R['xc']['disagree']} sampled validity queries: " + (R["xc_dis"][0][:400] if R["xc_dis"] else ""))
     if tot["paths"] == 0:
         harness_error.append("no path reached the oracle (vacuous)")
     elif tot["nontrivial"] == 0:
@@ -469,6 +482,7 @@ def finish(prop, tier, seed, R, level_note=""):
             "inconclusive_paths": tot["inconclusive"], "inconclusive_reasons": R["reasons"],
             "solver_unknown_answers": tot["unknowns"], "realisation_forks": tot["realisations"],
             "candidate_models_not_reproduced": tot["nonrepro"],
+            "cvc5_cross_check_of_sampled_queries": R.get("xc", {}),
             "witness_replays_agreeing": tot["witness_ok"], "witness_replays_disagreeing": len(R["witness_bad"]),
             "path_tags": R["tags"], "tasks": R["ntasks"],
             "known_findings_matched": {k: len(v) for k, v in matched.items()},
